@@ -1,7 +1,7 @@
 (* C14 -- proofs about concurrent rounds (Api/RestConc.v).
 
      conc_fixed_spec        repaired code: for EVERY interleaving of the atomic steps of the
-                            requests of a round, a finished request carries spec(request)
+                            requests of a round, a finished request carries fixed_reply(request)
      conc_pinned_refuted    pinned code: two complete, different POSTs; one interleaving
                             answers the first with the second's content
      seq_sched_is_run       the one-after-the-other schedule is the sequential model
@@ -58,7 +58,7 @@ Variables (w : world) (clients : list ckind) (rd : list creq).
 Definition tinv (cr : creq) (t : thread) : Prop :=
   th_req t = cr /\
   match th_rep t with
-  | Some rep => rep = spec w clients cr
+  | Some rep => rep = fixed_reply w clients cr
   | None =>
       match c_req cr with
       | QRest q =>
@@ -100,8 +100,8 @@ Proof.
   destruct (HT i t Et) as [cr [Hcr [Hreq Hti]]]. rewrite Er in Hti. rewrite Hreq.
   destruct (c_req cr) as [q|path b] eqn:Ec.
   - (* REST *)
-    assert (spec w clients cr = rest_reply (w_regs w) q) as Hspec.
-    { rewrite spec_closed_form. unfold spec_reply. now rewrite Ec. }
+    assert (fixed_reply w clients cr = rest_reply (w_regs w) q) as Hspec.
+    { rewrite spec_closed_form. unfold model_reply. now rewrite Ec. }
     unfold rest_reply in Hspec.
     destruct (nth_error (w_regs w) (q_res q)) as [r|] eqn:Ereg.
     + destruct (nth_error_same_length _ (g_cells g) _ _ (eq_sym HL) Ereg) as [cell Ecell]. rewrite Ecell.
@@ -145,7 +145,7 @@ Theorem conc_fixed_spec w clients st rd sched i t rep :
   wf_state w st ->
   nth_error (g_threads (crun all_fixed w clients (start st rd) sched)) i = Some t ->
   th_rep t = Some rep ->
-  exists cr, nth_error rd i = Some cr /\ rep = spec w clients cr.
+  exists cr, nth_error rd i = Some cr /\ rep = fixed_reply w clients cr.
 Proof.
   intros Hwf Ht Hr.
   pose proof (crun_ginv w clients rd sched _ (ginv_start w clients rd st Hwf)) as [_ [_ HT]].
@@ -188,7 +188,7 @@ Theorem conc_pinned_refuted :
   let g := crun pinned demo_world [CKind true true] (start (init_state demo_world) rd)
                 [0; 0; 0; 0; 1; 1; 1; 1; 0; 1] in
   replies g = [Some (ROk 10 (Msg "bob" 2 true "")); Some (ROk 10 (Msg "bob" 2 true ""))] /\
-  map (spec demo_world [CKind true true]) rd =
+  map (fixed_reply demo_world [CKind true true]) rd =
     [ROk 10 (Msg "alice" 1 true ""); ROk 10 (Msg "bob" 2 true "")].
 Proof. split; vm_compute; reflexivity. Qed.
 
@@ -1060,9 +1060,9 @@ Qed.
 
 Lemma admissible_fixed_spec w clients a rd i cr :
   List.length (a_cells a) = List.length (w_regs w) -> a_dead a = [] ->
-  admissible all_fixed w clients a rd i cr (spec w clients cr) = true.
+  admissible all_fixed w clients a rd i cr (fixed_reply w clients cr) = true.
 Proof.
-  intros Hlen Hdead. rewrite spec_closed_form. unfold admissible, spec_reply, routed_plan.
+  intros Hlen Hdead. rewrite spec_closed_form. unfold admissible, model_reply, routed_plan.
   destruct (c_req cr) as [q|path b] eqn:Ec.
   - unfold rest_reply. destruct (nth_error (w_regs w) (q_res q)) as [r|] eqn:Er; [|apply agree_reply_refl].
     destruct (routed r q); [|apply agree_reply_refl].
@@ -1085,11 +1085,11 @@ Proof.
   destruct a; simpl in *. now rewrite H.
 Qed.
 
-(* Repaired code: the observation in which every request gets spec(request) -- which by
+(* Repaired code: the observation in which every request gets fixed_reply(request) -- which by
    conc_fixed_spec is the only one any interleaving can produce -- is accepted. *)
 Theorem scenario_ok_fixed_spec w clients : forall rounds a,
   List.length (a_cells a) = List.length (w_regs w) -> a_dead a = [] ->
-  scenario_ok all_fixed w clients a rounds (map (map (spec w clients)) rounds) = true.
+  scenario_ok all_fixed w clients a rounds (map (map (fixed_reply w clients)) rounds) = true.
 Proof.
   induction rounds as [|rd rest IH]; intros a Hlen Hdead; [reflexivity|].
   simpl. apply andb_true_iff. split.
